@@ -535,3 +535,21 @@ def apalache_inductive(run, module, cinit, init="Init", indinit="IndInit", indin
         done.append({"obligation": name, "wall_s": round(time.time() - t0, 1)})
     run.extra.setdefault("apalache_inductive", []).append({"module": module, "constants": cinit, "obligations": done})
     shutil.rmtree(d, ignore_errors=True)
+
+
+def tlaps_check(run, module, timeout=900):
+    """Discharge the proofs of spec/<module>.tla with tlapm. A proof that does not go through is a problem of the
+    specification (exit 2), never a verdict about the code."""
+    d = scratch("tlaps")
+    shutil.copy(os.path.join(SPEC, module + ".tla"), d)
+    t0 = time.time()
+    try:
+        p = subprocess.run(["tlapm", "--threads", str(min(8, NCPU)), module + ".tla"], cwd=d, capture_output=True, text=True, timeout=timeout)
+    except subprocess.TimeoutExpired:
+        raise InfraError("tlapm timeout on " + module)
+    out = p.stdout + p.stderr
+    m = re.search(r"All (\d+) obligations? proved", out)
+    if not m:
+        raise InfraError("tlapm did not prove %s:\n%s" % (module, "\n".join(out.splitlines()[-15:])))
+    run.extra.setdefault("tlaps", []).append({"module": module, "obligations": int(m.group(1)), "discharged": int(m.group(1)), "wall_s": round(time.time() - t0, 1)})
+    shutil.rmtree(d, ignore_errors=True)
